@@ -176,6 +176,9 @@ static void prop(Ctx &c) {
         else if (c.boolean()) { size_t k = 0; for (zckChunk *ch = zck_get_first_chunk(z); ch; ch = zck_get_next_chunk(ch), k++) if (ch->valid == -1 && ((k * 7 + n) % 3) == 0) ch->valid = 0; }   // a later round: some failed chunks already reset
         Tab t; t.total = b.h.total_size; std::vector<int> v; size_t i = 0;
         for (zckChunk *ch = zck_get_first_chunk(z); ch; ch = zck_get_next_chunk(ch), i++) { t.start.push_back(b.off(i)); t.len.push_back(b.clen(i)); v.push_back(zck_get_chunk_valid(ch)); }
+        // options given on a context whose header is already read (too late to mean anything) must not move the request
+        if (c.gver >= 4 && c.rarely(4)) { static const int opts[] = {ZCK_VAL_HEADER_LENGTH, ZCK_VAL_HEADER_HASH_TYPE, ZCK_HASH_CHUNK_TYPE, ZCK_UNCOMP_HEADER, ZCK_CHUNK_MAX}; int oo = opts[c.pick(5)]; ssize_t val = oo == ZCK_VAL_HEADER_LENGTH ? (ssize_t)(1 + c.draw(5000)) : oo == ZCK_CHUNK_MAX ? 100000 : (ssize_t)c.draw(2);
+            (void)!zck_set_ioption(z, (zck_ioption)oo, val); if (zck_is_error(z)) (void)!zck_clear_error(z); c.label("option-set-after-open"); }
         int lim = LIMITS[c.pick(8)]; bool ntv = false; std::string vs; for (int x : v) vs += x == 1 ? "+" : x == 0 ? "0" : "-";
         c.desc << "public-API marking " << vs << " limit " << lim << " on {" << b.desc << "}" << (detached ? " as a detached header" : "");
         std::string e = evaluate3(z, t, v, lim, &sig, &ntv); zck_free(&z); close(fd);
